@@ -114,7 +114,7 @@ def gen(rng, tier):
             w.append(k)
             tot += k
         return w
-    nsmall = 2500 if quick else 60000
+    nsmall = 2500 if quick else 30000
     for _ in range(nsmall):
         n = rng.choice([rng.randint(0, 40), rng.randint(0, 600), rng.randint(0, 5000)])
         d = ("x" + bytes(rng.choice([48, 13, 10, 0, 255, rng.randint(0, 255)]) for _ in range(n)).hex()) if n <= 64 and rng.random() < 0.5 \
@@ -122,14 +122,14 @@ def gen(rng, tier):
         r = rsched(n)
         total = sum(chunk_len(p) for p in pieces_for(n, r)) + 5
         cases.append(case(d, r=r, w=wsched(total), pend=rng.randint(0, 3)))
-    big = [200000, 65528 * 3, 1048576, 1048577] if quick else [200000, 65528 * 3, 1048576, 1048577] * 6 + [rng.randint(100000, 1048576) for _ in range(40)]
+    big = [200000, 65528 * 3, 1048576, 1048577] if quick else [200000, 65528 * 3, 1048576, 1048577] * 3 + [rng.randint(100000, 1048576) for _ in range(20)]
     for n in big:
         r = rsched(n) if rng.random() < 0.6 else []
         if len(pieces_for(n, r)) > 3000:
             r = []
         cases.append(case("g%d_%d" % (rng.randint(0, 10**6), n), r=r, w=rng.choice([[], [65536] * 3, [1, 70000, 3, 200000]]), pend=rng.randint(0, 3)))
     # ---- (c) reader error / premature end at every chunk boundary
-    nerr = 120 if quick else 3000
+    nerr = 120 if quick else 1500
     for _ in range(nerr):
         n = rng.randint(1, 300)
         r = rsched(n)
@@ -144,7 +144,7 @@ def gen(rng, tier):
         cases.append(case("g1_%d" % n, r=[PIECE_MAX, "f"]))
         cases.append(case("g1_%d" % n, r=["f"]))
     # ---- (d) writer errors
-    nw = 40 if quick else 600
+    nw = 40 if quick else 300
     for _ in range(nw):
         n = rng.randint(0, 40)
         r = rsched(n)
@@ -157,7 +157,7 @@ def gen(rng, tier):
         for i in range(0, min(len(ws), 12) + 1):             # error / Ok(0) at the i-th poll_write
             cases.append(case(d, r=r, w=ws[:i] + ["f"]))
             cases.append(case(d, r=r, w=ws[:i] + [0]))
-    for _ in range(60 if quick else 2000):                   # larger: around every chunk boundary
+    for _ in range(60 if quick else 800):                    # larger: around every chunk boundary
         n = rng.choice([rng.randint(100, 5000), rng.randint(60000, 140000)])
         r = rsched(n)
         ps = pieces_for(n, r)
